@@ -45,6 +45,10 @@ def gen_net(rng, tier):
     kind = rng.choice(['DRR', 'DRR', 'WFQ', 'WFQ', 'WRR', None, None])
     net = sched.gen_sched_case(rng, tier, kind=kind, monitor=False, many_to_one=False,
                                static=rng.random() < 0.3)
+    if net.get('long_haul'):
+        # split executions compare whole traces: the long hauls are for the scheduler checks, here a short stretch will do
+        net['workload'] = net['workload'][:60]
+        net.pop('long_haul')
     if net['kind'] == 'WFQ' and rng.random() < 0.6:
         # decimal weights: their sum depends on the order of the additions (a set of string ids iterates in hash order)
         net['table'] = [[c, rng.choice([0.1, 0.2, 0.3, 0.7, 0.15, 0.05])] for c, _v in net['table']]
